@@ -12,6 +12,8 @@ change what they see.  Nothing of /repo runs: expressions are rewritten, never
 evaluated on data (constant sub-expressions are folded by consteval).
 """
 import ast
+
+from ..astutil import clone
 import copy
 
 from ..consteval import UNKNOWN, Regex
@@ -81,7 +83,7 @@ class SymBody:
                 if not isinstance(n.ctx, ast.Load):
                     return n
                 if n.id in env:
-                    return copy.deepcopy(env[n.id])
+                    return clone(env[n.id])
                 r = outer.model.resolve_name(f.module, n.id)
                 if r and r[0] == 'const':
                     v = outer.ctx.consts.module_const(r[1].name, r[2])
@@ -93,7 +95,7 @@ class SymBody:
             def visit_Attribute(self, n):
                 key = ast.unparse(n)
                 if key in env and isinstance(n.ctx, ast.Load):
-                    return copy.deepcopy(env[key])
+                    return clone(env[key])
                 n = self.generic_visit(n)
                 if isinstance(n.value, ast.Name) and \
                         n.value.id in ('self', 'cls') and f.cls is not None:
@@ -124,7 +126,8 @@ class SymBody:
                 return outer.fold(n, f)
 
             def visit_BinOp(self, n):
-                return outer.fold(self.generic_visit(n), f)
+                return outer.simplify_sum(
+                    outer.fold(self.generic_visit(n), f))
 
             def visit_Subscript(self, n):
                 n = self.generic_visit(n)
@@ -142,7 +145,48 @@ class SymBody:
 
             def visit_UnaryOp(self, n):
                 return outer.fold(self.generic_visit(n), f)
-        return T().visit(copy.deepcopy(e))
+        return T().visit(clone(e))
+
+    def simplify_sum(self, n):
+        """X + 1 + 1 -> X + 2 ; X + 0 -> X   (integer constants of a +/-
+        chain are collected at the end)"""
+        if not (isinstance(n, ast.BinOp) and
+                isinstance(n.op, (ast.Add, ast.Sub))):
+            return n
+        terms = []
+
+        def flat(x, sign):
+            if isinstance(x, ast.BinOp) and isinstance(x.op, ast.Add):
+                flat(x.left, sign)
+                flat(x.right, sign)
+            elif isinstance(x, ast.BinOp) and isinstance(x.op, ast.Sub):
+                flat(x.left, sign)
+                flat(x.right, -sign)
+            else:
+                terms.append((sign, x))
+        flat(n, 1)
+        ints = [(sg, t) for (sg, t) in terms
+                if isinstance(t, ast.Constant) and isinstance(t.value, int)
+                and not isinstance(t.value, bool)]
+        rest = [(sg, t) for (sg, t) in terms if (sg, t) not in ints]
+        if len(ints) < 2 and not (ints and ints[0][1].value == 0):
+            return n
+        if any(isinstance(t, ast.Constant) for (_s, t) in rest):
+            return n                      # bytes / str concatenation
+        c = sum(sg * t.value for (sg, t) in ints)
+        if not rest:
+            return ast.copy_location(ast.Constant(value=c), n)
+        out = None
+        for (sg, t) in rest:
+            if out is None:
+                out = t if sg > 0 else ast.UnaryOp(op=ast.USub(), operand=t)
+            else:
+                out = ast.BinOp(left=out, op=ast.Add() if sg > 0
+                                else ast.Sub(), right=t)
+        if c != 0:
+            out = ast.BinOp(left=out, op=ast.Add() if c > 0 else ast.Sub(),
+                            right=ast.Constant(value=abs(c)))
+        return ast.copy_location(out, n)
 
     def fold(self, n, f):
         """constant-fold a node whose operands are all literals"""
@@ -195,24 +239,29 @@ class SymBody:
             return None                    # has effects: not a pure helper
         if any(p.end not in ('return', 'fall') for p in paths):
             return None
-        # nested conditional expression over the paths, in order
-        out = None
-        for p in reversed(paths):
-            val = p.ret if p.end == 'return' and p.ret is not None \
+        # decision tree over the path conditions (the order of the forks)
+        def val_of(p):
+            return p.ret if p.end == 'return' and p.ret is not None \
                 else ast.Constant(value=None)
-            if out is None:
-                out = val
-                continue
-            test = None
-            for (t_, v_) in p.conds:
-                c = t_ if v_ else ast.UnaryOp(op=ast.Not(), operand=t_)
-                test = c if test is None else ast.BoolOp(
-                    op=ast.And(), values=[test, c])
-            if test is None:
-                out = val
-            else:
-                out = ast.IfExp(test=test, body=val, orelse=out)
-        return out
+
+        def tree(ps, k):
+            if len(ps) == 1 or all(len(p.conds) <= k for p in ps):
+                return val_of(ps[0])
+            t0 = ps[0].conds[k][0] if len(ps[0].conds) > k else None
+            if t0 is None:
+                return val_of(ps[0])
+            key = ast.unparse(t0)
+            yes = [p for p in ps if len(p.conds) > k and
+                   ast.unparse(p.conds[k][0]) == key and p.conds[k][1]]
+            no = [p for p in ps if len(p.conds) > k and
+                  ast.unparse(p.conds[k][0]) == key and not p.conds[k][1]]
+            if len(yes) + len(no) != len(ps) or not yes or not no:
+                return None
+            a, b = tree(yes, k + 1), tree(no, k + 1)
+            if a is None or b is None:
+                return None
+            return ast.IfExp(test=t0, body=a, orelse=b)
+        return tree(paths, 0)
 
     def bind_args(self, t, call):
         a = t.node.args
@@ -274,9 +323,23 @@ class SymBody:
                 raise AnalysisError('too many paths in ' + self.f.qual)
         return paths
 
+    @staticmethod
+    def _mutable_display(v):
+        if isinstance(v, (ast.List, ast.Dict, ast.Set, ast.ListComp,
+                          ast.DictComp, ast.SetComp)):
+            return True
+        return isinstance(v, ast.Call) and isinstance(v.func, ast.Name) and \
+            v.func.id in ('list', 'dict', 'set', 'bytearray', 'deque')
+
     def assign(self, t, v, p, node):
         if isinstance(t, ast.Name):
-            p.env[t.id] = v
+            if self._mutable_display(v):
+                # a fresh mutable object: later reads must see the name (the
+                # object may have been mutated since), not this display
+                p.env.pop(t.id, None)
+                p.events.append(('bind', t.id, v, node))
+            else:
+                p.env[t.id] = v
         elif isinstance(t, (ast.Tuple, ast.List)):
             if isinstance(v, (ast.Tuple, ast.List)) and \
                     len(v.elts) == len(t.elts):
@@ -289,7 +352,7 @@ class SymBody:
             else:
                 for k, x in enumerate(t.elts):
                     self.assign(x, ast.Subscript(
-                        value=copy.deepcopy(v),
+                        value=clone(v),
                         slice=ast.Constant(value=k), ctx=ast.Load()), p, node)
         elif isinstance(t, ast.Attribute):
             key = ast.unparse(t)
@@ -302,6 +365,24 @@ class SymBody:
                              self._slice(t.slice, p.env), v, node))
         else:
             raise AnalysisError('assignment target ' + u(t)[:40])
+
+    def _fork_value(self, p, v, depth):
+        if not isinstance(v, ast.IfExp) or depth > 6:
+            return [(p, v)]
+        r = self.truth(v.test)
+        if r is not None:
+            return self._fork_value(p, v.body if r else v.orelse, depth + 1)
+        out = []
+        for val, sub in ((True, v.body), (False, v.orelse)):
+            q = p.clone()
+            # split a conjunction so each conjunct is its own condition
+            conj = v.test.values if (isinstance(v.test, ast.BoolOp) and
+                                     isinstance(v.test.op, ast.And) and
+                                     val) else [v.test]
+            for c in conj:
+                q.conds.append((c, val))
+            out.extend(self._fork_value(q, sub, depth + 1))
+        return out
 
     def _slice(self, sl, env):
         return ast.Slice(
@@ -358,15 +439,20 @@ class SymBody:
             v = self.S(st.value, env)
             if isinstance(st.value, (ast.Yield, ast.YieldFrom)):
                 raise AnalysisError('yield expression value used')
-            for t in st.targets:
-                self.assign(t, v, p, st)
-            return [p]
+            # a conditional value (typically an inlined helper with several
+            # returns) forks the path instead of being carried as IfExp
+            outs = []
+            for (q, val) in self._fork_value(p, v, 0):
+                for t in st.targets:
+                    self.assign(t, val, q, st)
+                outs.append(q)
+            return outs
         if isinstance(st, ast.AnnAssign):
             if st.value is not None:
                 self.assign(st.target, self.S(st.value, env), p, st)
             return [p]
         if isinstance(st, ast.AugAssign):
-            cur = copy.deepcopy(st.target)
+            cur = clone(st.target)
             for x in ast.walk(cur):
                 if hasattr(x, 'ctx'):
                     x.ctx = ast.Load()
